@@ -250,6 +250,18 @@ func regImmShift(f binaryExprFunc, i instruction, bits uint8, w expr.Width) expr
 	return f(regLoad(rs1, i, w), immShift, w)
 }
 
+// signedRem is the RISC-V signed remainder of two w wide values: the result
+// has the sign of the dividend, reminder by zero is the dividend.
+func signedRem(e1, e2 expr.Expr, w expr.Width) expr.Expr {
+	unsigned := exprtools.Mod(exprtools.Abs(e1, w), exprtools.Abs(e2, w), w)
+	return exprtools.BoolCond(
+		exprtools.IntNegative(e1, w),
+		exprtools.Negate(unsigned, w),
+		unsigned,
+		w,
+	)
+}
+
 func sext(e expr.Expr, signBit uint8, w expr.Width) expr.Expr {
 	return exprtools.SignExtend(e, expr.ConstFromUint(signBit), w)
 }
